@@ -57,7 +57,7 @@ for p in props:
         checks.append({"property_id": pid, "quick_cmd": "./check %s --tier quick" % pid, "thorough_cmd": "./check %s --tier thorough" % pid,
                        "evidence_file": "/verif/evidence/%s.json" % pid, "replay_cmd_template": "cat {path}", "engine": "E0 facts + lenflow/layout/tables/effects",
                        "level_claimed": {"category": lvl, "text": TEXT[pid], "design_ref": "DESIGN.md sections 4 and 8.3, " + pid},
-                       "level_note": "trusted base: rustc MIR, stub table of std/md5/phf semantics, spec/*.json as the reading of RFC 2661, own FM entailment (sound, incomplete). The Reader/Writer contract entries this check's proof applies are discharged for SliceReader/VecWriter inside the check itself (keys `contract | ...`); clauses owned by another property that this one's statement contains are borrowed (keys `via Cxx | ...`). An obligation that fails while the analysis met an unmodelled callee or abandoned a path is reported as UNDECIDED (exit 0), never as a violation (DESIGN.md 8.10). The thorough tier also runs the checker self-test on scratch copies (DESIGN.md 8.8).",
+                       "level_note": "trusted base: rustc MIR, stub table of std/md5/phf semantics, spec/*.json as the reading of RFC 2661, own FM entailment (sound, incomplete). The Reader/Writer contract entries this check's proof applies are discharged for SliceReader/VecWriter inside the check itself (keys `contract | ...`); clauses owned by another property that this one's statement contains are borrowed (keys `via Cxx | ...`). An obligation that fails downstream of an unmodelled callee's result (or a rule-level clause of a check that abandoned a path) is reported as UNDECIDED (exit 0), not as a violation; a failure on a path no unknown result had touched stands (DESIGN.md 8.10). The thorough tier also runs the checker self-test on scratch copies (DESIGN.md 8.8).",
                        "technique": tech})
 na = [{"property_id": p["id"], "reason": "check under construction in this session (static rule planned in DESIGN.md section 4); not claimed until it exists"}
       for p in props if p["id"] not in have]
